@@ -23,10 +23,13 @@
       clause-order resolution by construction (a stack of `goals` / `try` / `notF` frames; a negation runs a search of its
       own for the negated goal and keeps nothing of it but the counter and the text written) and the silent runs between two answers contain no other answer.
   NOT proved: the refinement for programs with `!` or `time` (for those: soundness above, the C02 /
-  C03 / C05 theorems, and the machine comparison on every run); uniqueness of the machine's run needs
-  the fuel-monotonicity of the unification model and is not proved either.
+  C03 / C05 theorems, and the machine comparison on every run).  The machine's run is unique
+  (`C01_exact`, from `Lemmas/MachineDet.lean` and the fuel monotonicity of `Lemmas/FuelMono.lean`), and so is
+  the outcome of every request that returns (`request_independent_of_fuel`); that a request returns at all
+  (termination) is outside the theorems.
 -/
 import SuironVerif.Model.Solve
+import SuironVerif.Lemmas.MachineDet
 import SuironVerif.Spec.Machine
 import SuironVerif.Lemmas.Exhausted
 import SuironVerif.Lemmas.EngineSound
@@ -75,6 +78,25 @@ theorem C01_pure (fo : FloatOps) (kb : KB)
     (hmk : mkNode fo.showF kb (.call q) σ0 g0 = .ok (node, g1)) (hg : Spec.GOK g0) (fs : List Nat) :
     Spec.MRun fo kb ⟨[.goals [.call q] σ0], g0.counter, g0.out⟩ (Spec.askOut fo kb fs node g1) :=
   Spec.query_refines_machine fo kb (Spec.pureKB_of_rules kb hkb) q σ0 g0 g1 node hmk hg fs
+
+/-- EXACTLY: the reference machine is deterministic (`MRun.det`: one successor per configuration whatever fuel the
+    unification and built-in models get), so its run from the query is unique; whatever it can be observed to
+    show — any `tr'` — agrees position by position (answer or none, and the text written so far) with what the
+    engine's successive requests return. -/
+theorem C01_exact (fo : FloatOps) (kb : KB)
+    (hkb : ∀ key rs, kb.get key = some rs → ∀ r ∈ rs, r.body.isNil = true ∨ Spec.pureG r.body = true)
+    (q : Term) (σ0 : Subst) (g0 g1 : G) (node : Node)
+    (hmk : mkNode fo.showF kb (.call q) σ0 g0 = .ok (node, g1)) (hg : Spec.GOK g0) (fs : List Nat)
+    (tr' : List (Option Subst × List String)) (hm : Spec.MRun fo kb ⟨[.goals [.call q] σ0], g0.counter, g0.out⟩ tr')
+    (i : Nat) (x y : Option Subst × List String) (hx : (Spec.askOut fo kb fs node g1)[i]? = some x) (hy : tr'[i]? = some y) : x = y :=
+  (C01_pure fo kb hkb q σ0 g0 g1 node hmk hg fs).det hm i x y hx hy
+
+/-- fuel is a modelling device only: a request that returns with two fuel values returns the same answer, the same
+    successor node and the same global state -/
+theorem request_independent_of_fuel (fo : FloatOps) (kb : KB) (N : Node) (g : G) (f f' : Nat) (st st' : Step)
+    (h : next fo kb f N g = .ok st) (h' : next fo kb f' N g = .ok st') : st = st' := by
+  have := next_unique fo kb N g f f' (by rw [h]; simp) (by rw [h']; simp)
+  rw [h, h'] at this; cases this; rfl
 
 /-- the same for any node of the fragment reached during a search (re-asked nodes, stale children included) -/
 theorem C01_pure_node (fo : FloatOps) (kb : KB)
